@@ -39,20 +39,39 @@ type vpHdrScn struct {
 	lazySync bool
 	offered  []wire.BlockHeader // the last offered chain whose headers all passed the rules
 	interval int                // difficulty retarget interval in blocks (0: the network never retargets)
-	pace     int                // timestamps of fresh headers: 0 one block time apart, 1 as early as the rules allow, 2 far apart
+	pace     int                // timestamps of fresh headers: 0 one block time apart, 1 as early as the rules allow, 2 far apart, 3 each header late or on time
+	mindiff  bool               // the network has the testnet-style minimum-difficulty exception (ReduceMinDifficulty, 20 minutes)
 }
 
 // reqBits: the difficulty the retarget rules require of the header on top
 // of parent (an independent restatement of the rule: every interval-th
 // height the target is scaled by the time the last interval took, clamped
-// to a factor of 4 and to the proof-of-work limit).
-func (s *vpHdrScn) reqBits(parent []wire.BlockHeader) uint32 {
+// to a factor of 4 and to the proof-of-work limit).  On a network with the
+// minimum-difficulty exception a header between two retargets whose
+// timestamp ts is more than 20 minutes after its parent's must carry the
+// proof-of-work limit, and any other one the difficulty of the nearest
+// ancestor that is not such an exception (or sits on a retarget height).
+func (s *vpHdrScn) reqBits(parent []wire.BlockHeader, ts int64) uint32 {
 	if s.interval == 0 {
 		return vpPowLimitBits
 	}
 	h := len(parent)
 	last := parent[h-1]
 	if h%s.interval != 0 {
+		if s.mindiff {
+			if ts > last.Timestamp.Unix()+20*60 {
+				vpReach("minimum-difficulty-exception-applies")
+				return vpPowLimitBits
+			}
+			i := h - 1
+			for i > 0 && i%s.interval != 0 && parent[i].Bits == vpPowLimitBits {
+				i--
+			}
+			if parent[i].Bits != last.Bits {
+				vpReach("difficulty-restored-after-a-minimum-difficulty-header")
+			}
+			return parent[i].Bits
+		}
 		return last.Bits
 	}
 	first := parent[h-s.interval]
@@ -137,7 +156,7 @@ func (s *vpHdrScn) isCp(h int) bool {
 func (s *vpHdrScn) refValid(parent []wire.BlockHeader, h *wire.BlockHeader) bool {
 	ok := vpPowOK(h)
 	ok = vpAnd(ok, h.PrevBlock == parent[len(parent)-1].BlockHash())
-	ok = vpAnd(ok, h.Bits == s.reqBits(parent))
+	ok = vpAnd(ok, h.Bits == s.reqBits(parent, h.Timestamp.Unix()))
 	ok = vpAnd(ok, h.Timestamp.Unix() > vpRefMTP(parent))
 	ok = vpAnd(ok, h.Timestamp.Unix() <= vpNowUnix+2*3600)
 	if s.isCp(len(parent)) {
@@ -154,7 +173,7 @@ func (s *vpHdrScn) checkStore(tag string) {
 		hc := S[i]
 		vpAssert(hc.PrevBlock == S[i-1].BlockHash(), tag+"stored-header-names-its-predecessor")
 		vpAssert(vpPowOK(&hc), tag+"stored-header-meets-proof-of-work")
-		vpAssert(hc.Bits == s.reqBits(S[:i]), tag+"stored-header-has-required-difficulty")
+		vpAssert(hc.Bits == s.reqBits(S[:i], hc.Timestamp.Unix()), tag+"stored-header-has-required-difficulty")
 		vpAssert(hc.Timestamp.Unix() > vpRefMTP(S[:i]), tag+"stored-header-after-median-time-past")
 		vpAssert(hc.Timestamp.Unix() <= vpNowUnix+2*3600, tag+"stored-header-within-future-limit")
 	}
@@ -209,13 +228,9 @@ func vpSameChain(a, b []wire.BlockHeader) bool {
 func (s *vpHdrScn) altHeader(parent []wire.BlockHeader, kind int, symTs bool) *wire.BlockHeader {
 	s.salt++
 	height := len(parent)
-	h := &wire.BlockHeader{Version: 5, Bits: s.reqBits(parent), PrevBlock: parent[len(parent)-1].BlockHash(),
+	h := &wire.BlockHeader{Version: 5, PrevBlock: parent[len(parent)-1].BlockHash(),
 		Timestamp: time.Unix(vpTimeBase+int64(height)*600+10+s.salt, 0), Nonce: uint32(s.salt)}
 	switch kind {
-	case 2: // not the required difficulty
-		h.Bits = h.Bits - 1
-	case 7: // the parent's difficulty where the rules require a retarget
-		h.Bits = parent[len(parent)-1].Bits
 	case 3: // exactly the median time past (must be strictly later)
 		h.Timestamp = time.Unix(vpRefMTP(parent), 0)
 	case 4: // one second beyond the future limit
@@ -235,8 +250,30 @@ func (s *vpHdrScn) altHeader(parent []wire.BlockHeader, kind int, symTs bool) *w
 			h.Timestamp = time.Unix(parent[len(parent)-1].Timestamp.Unix()+5*int64(s.interval+1)*600, 0)
 		}
 	}
+	if s.pace == 3 && (kind == 0 || kind == 2 || kind == 7 || kind == 9) {
+		// each header by itself: more than 20 minutes after its parent
+		// (exactly one second beyond the limit), exactly at the limit, or on time
+		switch vpRange("spacing", 0, 2) {
+		case 0:
+			h.Timestamp = time.Unix(parent[len(parent)-1].Timestamp.Unix()+20*60+1, 0)
+		case 1:
+			h.Timestamp = time.Unix(parent[len(parent)-1].Timestamp.Unix()+20*60, 0)
+		default:
+			h.Timestamp = time.Unix(parent[len(parent)-1].Timestamp.Unix()+600, 0)
+		}
+	}
 	if symTs && kind == 0 {
 		h.Timestamp = time.Unix(int64(vpU32("timestamp")), 0)
+	}
+	// the difficulty the rules require of a header with this timestamp
+	h.Bits = s.reqBits(parent, h.Timestamp.Unix())
+	switch kind {
+	case 2: // not the required difficulty
+		h.Bits = h.Bits - 1
+	case 7: // the parent's difficulty where the rules require something else (a retarget, or the return from a minimum-difficulty header)
+		h.Bits = parent[len(parent)-1].Bits
+	case 9: // the proof-of-work limit where the minimum-difficulty exception does not apply
+		h.Bits = vpPowLimitBits
 	}
 	// whether the header meets its proof-of-work target is a free input of
 	// its own (symbolically: an unconstrained value of the predicate for a
@@ -317,16 +354,27 @@ func (s *vpHdrScn) oneMessage(tag string, o vpMsgOpt) bool {
 		if vpParam("paces", 0) == 1 {
 			s.pace = vpRange(tag+"pace", 0, 2)
 		}
+		if s.mindiff {
+			s.pace = 3 // every header by itself late (minimum difficulty allowed) or not
+		}
 		bad := -1
 		kind := 0
 		kmax := kinds
+		sib, minDiffClaim := -1, -1
 		if vpParam("siblings", 0) == 1 {
-			kmax = kinds + 1 // one more defect: a header that is a sibling of its predecessor in the message
+			kmax++ // one more defect: a header that is a sibling of its predecessor in the message
+			sib = kmax
+		}
+		if s.mindiff {
+			kmax++ // one more: a header claiming the minimum difficulty whether or not the exception applies
+			minDiffClaim = kmax
 		}
 		if kmax > 0 {
 			kind = vpRange(tag+"kind", 0, kmax)
-			if kind > kinds {
+			if kind == sib {
 				kind = 8
+			} else if kind == minDiffClaim {
+				kind = 9
 			}
 			if kind != 0 {
 				bad = vpRange(tag+"kindAt", 0, L-1)
@@ -569,6 +617,11 @@ func vpNewHdrScn(maxCps int, bothAges bool) *vpHdrScn {
 		s.interval = iv
 		params.PoWNoRetargeting = false
 		params.ReduceMinDifficulty = false
+		if vpParam("mindiff", 0) == 1 {
+			s.mindiff = true
+			params.ReduceMinDifficulty = true
+			params.MinDiffReductionTime = 20 * time.Minute
+		}
 		params.TargetTimespan = time.Duration(iv) * params.TargetTimePerBlock
 		opt.bitsFor = s.reqBits
 	}
